@@ -67,6 +67,20 @@ THEOREMS = [
     "Scenic.C10.front_state_restored",
     "Scenic.C10.front_inactive_afterwards",
     "Scenic.C10.front_no_frame_left",
+    # error-location layer (Model/ErrLoc.lean): for every fetched-token history / helper / arguments drawn from it
+    "Scenic.ErrLoc.rangeKnown_preload",
+    "Scenic.ErrLoc.build_line",
+    "Scenic.ErrLoc.build_located",
+    "Scenic.ErrLoc.helper_located",
+    "Scenic.ErrLoc.helper_line_inside_input",
+    "Scenic.ErrLoc.table_located",
+    "Scenic.ErrLoc.tokenError_line",
+    "Scenic.ErrLoc.unprotected_witness",
+    "Scenic.ErrLoc.offset_witness",
+    "Scenic.ErrLoc.endline_witness",
+    # ... instantiated on the data regenerated from the generated parser
+    "Scenic.C10.scenic_error_helpers_located",
+    "Scenic.C10.scenic_token_error_line",
 ]
 SIDE = [
     "Scenic.C10.gen_grammar_wf",
@@ -75,6 +89,7 @@ SIDE = [
     "Scenic.C10.gen_veneer_resets_cover_writes",
     "Scenic.C10.gen_skeleton_ok",
     "Scenic.C10.gen_finally_guarded",
+    "Scenic.C10.gen_errloc_ok",
 ]
 
 FINGERPRINTS = {
@@ -92,6 +107,7 @@ FINGERPRINTS = {
     "Transformer": ("src/scenic/syntax/compiler.py", "Transformer"),
     "ScenicToPythonTransformer": ("src/scenic/syntax/compiler.py", "ScenicToPythonTransformer"),
     "ParseCompileError": ("src/scenic/core/errors.py", "ParseCompileError"),
+    "ScenicParseError": ("src/scenic/core/errors.py", "ScenicParseError"),
     "getText": ("src/scenic/core/errors.py", "getText"),
 }
 
@@ -209,7 +225,14 @@ class _Timeout(BaseException):
     pass
 
 
+_FIRED = [0]
+
+
 def _alarm(signum, frame):
+    # the flag is what counts: the exception may be swallowed (a __del__ frame, an `except BaseException` of the code under
+    # test); `boxed` discards the result of any call during which the alarm fired, and the timer keeps firing every second
+    # until the exception gets through
+    _FIRED[0] += 1
     raise _Timeout()
 
 
@@ -530,15 +553,25 @@ def _winit():
 
 
 def boxed(timebox, fn, *args, **kw):
-    """fn(*args) under a SIGALRM time box; None on time-out (also when the alarm fires while it is being cancelled)"""
+    """fn(*args) under a SIGALRM time box; None (= cut off, the case is dropped / re-run alone, never an outcome) when the
+    alarm fired at any moment of the call, whether or not the exception reached us"""
+    _FIRED[0] = 0
+    r = None
     try:
-        signal.alarm(timebox)
         try:
-            return fn(*args, **kw)
-        finally:
-            signal.alarm(0)
-    except _Timeout:
+            signal.setitimer(signal.ITIMER_REAL, timebox, 1.0)
+            try:
+                r = fn(*args, **kw)
+            finally:
+                signal.setitimer(signal.ITIMER_REAL, 0)
+        except _Timeout:
+            r = None
+    except _Timeout:        # fired while the timer was being cancelled
+        r = None
+    if _FIRED[0]:
+        _FIRED[0] = 0
         return None
+    return r
 
 
 def run_one(src, do_exec, initial, mode2D=False, timebox=TIMEBOX):
@@ -578,7 +611,11 @@ def _wchunk(task):
     hist = Counter()
     findings = []
     samples = []
+    done = lo
     for i in range(lo, hi):
+        if i > lo and time.time() > _W.get("deadline", float("inf")):
+            break               # phase deadline: return what was finished, the rest of the chunk is not counted
+        done = i + 1
         if kind == "corpus":
             name, m = _W["seeds"][i]
             do_exec, mode2D = False, False
@@ -599,7 +636,106 @@ def _wchunk(task):
         hist["len:" + str(min(len(m) // 200 * 200, 1400))] += 1
         if kind == "mut" and len(samples) < 1 and vs[0]["o"] == "syntax":
             samples.append(m[:300])
-    return kind, lo, hi, dict(hist), findings, samples
+    return kind, lo, done, dict(hist), findings, samples
+
+
+# =========================================================================== (C) error-location model vs the real helper
+def corr_errloc(ctx):
+    """Model/ErrLoc.build + known on Gen.errLocData vs Parser._build_syntax_error, hooked from outside (one record per
+    syntax error built): reported line, whether the KeyError fallback was used, the keys of tokenizer._lines"""
+    P = front_modules()[0]
+    cls = P.Parser
+    orig = cls._build_syntax_error
+    recs = []
+    cur = {}
+
+    def hook(self, message, start=None, end=None):
+        tz = self._tokenizer
+        calls = [0]
+        gl = tz.get_lines
+
+        def counting(x):
+            calls[0] += 1
+            return gl(x)
+        tz.get_lines = counting
+        out = None
+        try:
+            try:
+                r = orig(self, message, start, end)
+                out = ("ok", getattr(r, "lineno", None), 1 if calls[0] >= 2 else 0)
+                return r
+            except KeyError:
+                out = ("keyerror",)
+                raise
+        finally:
+            del tz.get_lines
+            if out is not None and len(recs) < 20000:
+                recs.append({"src": cur.get("src"), "N": cur.get("N"), "s": start[0] if start else None,
+                             "e": end[0] if end else None, "h": [(t.start[0], t.end[0]) for t in tz._tokens],
+                             "keys": sorted(tz._lines), "out": out, "helper": sys._getframe(1).f_code.co_name})
+
+    seeds = load_corpus(ctx.repo)
+    small = [x for x in seeds if len(x[1]) <= MAX_SEED_LEN]
+    Vv = vocabulary()
+    texts = [p[1] for p in fixed_probes()]
+    texts += [p[1] for p in target_matrix()][:: 7]
+    rng = random.Random(f"errloc{ctx.seed}")
+    for x in small[:: max(1, len(small) // 40)]:
+        texts += list(spread(x[1], rng, 3))
+    for i in range((min(ctx.budget(250, 3000), 400) if ctx.tier == "quick" else ctx.budget(250, 3000))):
+        texts.append(make_mutant(f"errloc{ctx.seed}", i, seeds, small, Vv)[1])
+    texts += ["x = (1,\n\n\n 2 3)\n", '"""a\nb""" = 3', "f(\n\n# c\n a b)", "x = 1 +\n", "\n\n\n)", "if x:\n",
+              "a = $\n\n", "def f(:\n\n  pass", "x = [\n1,\n\n2\n3]", "x = 1 2", "(a\n\n\n=\n\n1)"]
+    cls._build_syntax_error = hook
+    t_end = time.time() + (30 if ctx.tier == "quick" else ctx.budget(45, 300))
+    nrun = 0
+    try:
+        for src in texts:
+            if time.time() > t_end:
+                break
+            cur.update(src=src, N=len(io.StringIO(src).readlines()))
+            n0 = len(recs)
+            if boxed(TIMEBOX_SOLO, _parse_quiet, P, src) is None:
+                del recs[n0:]            # cut off: whatever was recorded in flight is dropped
+            nrun += 1
+    finally:
+        cls._build_syntax_error = orig
+    lines = []
+    for r in recs:
+        mx = max([r["N"] + 1] + r["keys"] + [t[1] for t in r["h"]]) + 1
+        r["mx"] = mx
+        lines.append("C10 errloc %d %s %s %d %s" % (r["N"], "-" if r["s"] is None else r["s"],
+                                                    "-" if r["e"] is None else r["e"], mx,
+                                                    " ".join(f"{a}:{b}" for a, b in r["h"])))
+    outs = ctx.driver(lines) if lines else []
+    bad = 0
+    for r, o in zip(recs, outs):
+        ctx.case(("errloc", r["src"], r["s"], r["e"], len(r["h"])), nontrivial=r["s"] is not None)
+        head, _, bits = o.partition(" keys=")
+        real = "keyerror" if r["out"][0] == "keyerror" else f"ok {r['out'][1]} {r['out'][2]}"
+        realbits = "".join("1" if ln in r["keys"] else "0" for ln in range(r["mx"] + 1))
+        N = r["N"]
+        wf = all(1 <= a <= N + 1 and a <= b and (b == a or b <= N) for a, b in r["h"])
+        ctx.hist("errloc_helper", r["helper"])
+        ctx.hist("errloc_outcome", ("fallback" if real.endswith(" 1") else real.split()[0]) + ("" if wf else ":tokens-not-wf"))
+        if head != real or bits != realbits:
+            bad += 1
+            if bad <= 3:
+                ctx.broken("correspondence", "ErrLoc.build/known on Gen.errLocData vs Parser._build_syntax_error",
+                           f"{r['src']!r}: helper {r['helper']} start={r['s']} end={r['e']} N={N} tokens={r['h'][-6:]}: "
+                           f"lean {head} keys={bits}; real {real} keys={realbits}")
+    ctx.extra["errloc_correspondence"] = {"programs": nrun, "errors_built": len(recs), "disagreements": bad}
+    return False
+
+
+def _parse_quiet(P, src):
+    try:
+        P.parse_string(src, "exec")
+    except _Timeout:
+        raise
+    except BaseException:  # noqa
+        pass
+    return True
 
 
 # =========================================================================== shrinking
@@ -689,15 +825,17 @@ def direct_oracle(ctx, parser_path):
 
     # ---- (3) the unmutated corpus, then seeded mutants, 16 workers, until the count or the time budget is reached
     n = ctx.budget(5000, 300000)
-    budget_s = ctx.budget(165, 1500)          # wall-clock target of the whole check (quick ≲ 3 min, thorough ≲ 30 min)
+    budget_s = 200 if ctx.tier == "quick" else ctx.budget(165, 1500)   # quick: hard overall cap, also when budgets escalate
+    _unused = ctx.budget(165, 1500)          # wall-clock target of the whole check (quick ≲ 3 min, thorough ≲ 30 min)
     if os.environ.get("C10_TIME_BUDGET"):     # development runs on a loaded machine
         budget_s = float(os.environ["C10_TIME_BUDGET"])
     exec_every = 4
-    nproc = max(1, int(os.environ.get("VERIF_WORKERS") or min(16, os.cpu_count() or 4)))
+    nproc = max(1, int(os.environ.get("VERIF_WORKERS") or min(3 if ctx.tier == "quick" else 8, os.cpu_count() or 4)))
     chunk = 25 if n <= 20000 else 200
     tasks = [("corpus", lo, min(len(seeds), lo + 40)) for lo in range(0, len(seeds), 40)]
     tasks += [("mut", lo, min(n, lo + chunk)) for lo in range(0, n, chunk)]
-    _W.update(seeds=seeds, small=small, V=vocabulary(), seed=ctx.seed, exec_every=exec_every, initial=initial)
+    _W.update(seeds=seeds, small=small, V=vocabulary(), seed=ctx.seed, exec_every=exec_every, initial=initial,
+              deadline=time.time() + max(60.0, budget_s - ctx.elapsed()) + 45.0)
     mp = multiprocessing.get_context("fork")
     t0 = time.time()
     results = []
@@ -935,6 +1073,15 @@ def run(ctx):
         ctx.gen_restore("FrontStateC10")
         ctx.escalated.append(f"translator tie lost (veneer/translator skeleton): {e}")
         ctx.notes.append(f"translator tie lost for veneer.activate/deactivate or the try/finally skeletons: {e}")
+    try:
+        from translate import errloc_c10
+        el = errloc_c10.extract(parser_path)
+        ctx.gen("ErrLocC10", errloc_c10.to_lean(el))
+        ctx.extra["errloc_data"] = {k: (v if k != "helpers" else len(v)) for k, v in el.items()}
+    except TemplateMismatch as e:
+        ctx.gen_restore("ErrLocC10")
+        ctx.escalated.append(f"translator tie lost (error-location helpers): {e}")
+        ctx.notes.append(f"translator tie lost for parse_string / Parser._build_syntax_error / raise_syntax_error_*: {e}")
     phases = ctx.extra.setdefault("phase_wall_s", {})
     phases["translate"] = round(ctx.elapsed(), 1)
     pr = ctx.prove(THEOREMS, side_conditions=SIDE)
@@ -949,13 +1096,16 @@ def run(ctx):
         # a side condition / proof no longer checks: the model driver (no proofs inside) may still build
         rc, _log = ctx.lake(["build", "drv_c10"])
         driver_ok = rc == 0
-    only = set((os.environ.get("C10_PHASES") or "front,peg,direct").split(","))   # development switch
+    only = set((os.environ.get("C10_PHASES") or "front,peg,errloc,direct").split(","))   # development switch
     if "front" in only:
         found |= corr_frontstate(ctx, fs, use_model=driver_ok)
     phases["corr_frontstate"] = round(ctx.elapsed(), 1)
     if driver_ok and gram is not None and "peg" in only:
         found |= corr_peg(ctx, gram)
     phases["corr_peg"] = round(ctx.elapsed(), 1)
+    if driver_ok and "errloc" in only:
+        found |= corr_errloc(ctx)
+    phases["corr_errloc"] = round(ctx.elapsed(), 1)
     if "direct" in only:
         found |= direct_oracle(ctx, parser_path)
     phases["direct_oracle"] = round(ctx.elapsed(), 1)
@@ -1139,7 +1289,7 @@ def corr_frontstate(ctx, fs, use_model=True):
     ] + [{"o": (0, 0), "toks": [f"w{fs['names'].index(n)}"]} for n in fs["compileWrites"] if n in fs["names"]] \
       + [{"o": (0, 0), "toks": ["I", f"w{fs['names'].index(n)}", "c", "T001", f"w{fs['names'].index(n)}", "f"]}
          for n in fs["compileWrites"] if n in fs["names"]]
-    n = ctx.budget(60, 1500)
+    n = ctx.budget(60, 1500) if ctx.tier != "quick" else min(ctx.budget(60, 1500), 150)   # quick: capped also when escalated
     for i in range(n):
         scripts.append(gen_script(rng, fs, refused=(i % 2 == 0)))
     if fs.get("sfsInnerActivates"):
@@ -1300,11 +1450,15 @@ def corr_peg(ctx, gram):
     cases = [(n, s) for n, s in small[:: max(1, len(small) // ctx.budget(120, 1000))]]
     for name, src, _ in fixed_probes():
         cases.append((name, src))
-    for i in range(ctx.budget(200, 4000)):
+    for i in range((min(ctx.budget(200, 4000), 400) if ctx.tier == "quick" else ctx.budget(200, 4000))):
         name, m, _ = make_mutant(f"peg{ctx.seed}", i, seeds, small, Vv)
         cases.append((name + "~", m))
     lines, real = [], []
+    t_end = time.time() + (60 if ctx.tier == "quick" else ctx.budget(75, 600))   # quick: hard cap even when escalated      # phase deadline checked between cases; the cases done stay valid
     for name, src in cases:
+        if time.time() > t_end:
+            ctx.notes.append(f"PEG correspondence stopped by its time budget after {len(real)} of {len(cases)} inputs")
+            break
         def one():
             ws = _token_words(src, ids)
             r1 = _real_pass1(src)
